@@ -132,6 +132,10 @@ def failing_items(case):
     addition = o.get("addition")
     conv_opts = entries.make_options({k: v for k, v in o.items() if k in ("no_explicit_cast", "no_data_loss", "addition")})   # addition also governs extra tuple items / nested keys
     reg = {}
+    if case["kind"] == "func" and case.get("kwvar") is not None:
+        # a function with **kw: T parses with Options(addition=T): that option also governs extra items of tuple-typed parameters
+        kw_t = True if case["kwvar"] == "any" else tspec.build(case["kwvar"], decl_builder=lambda d: reg.setdefault(d["name"], dspec.build_decl(d)))
+        conv_opts = utype.Options(addition=kw_t, **{k: v for k, v in o.items() if k in ("no_explicit_cast", "no_data_loss")})
     inp = {k: v for k, v in case["input"]}
     failing, conv = set(), 0
     names = set()
